@@ -91,6 +91,11 @@ impl Engine for St {
             _ => Case::default(),
         };
         c.prop = prop.to_string();
+        // XZ with an x86 BCJ pre-filter: in a third of the runs the data is dense in what that
+        // filter keeps state about (opcode clusters), whatever the scenario drew
+        if matches!(prop, "C02" | "C05" | "C07" | "C13" | "C16" | "C18") && c.fmt == "xz" && c.opt.filters.iter().any(|f| f.0 == 4) && (seed >> 9) % 3 == 0 && c.input.len > 0 && !matches!(c.input.class.as_str(), "empty" | "sandwich") {
+            c.input.class = "x86soup".into();
+        }
         if tier == "thorough" {
             c.set("tier_thorough", 1);
         }
